@@ -641,6 +641,26 @@ class List(list, base.Symbolic, pg_typing.CustomTyping):
     """Returns a repeated Lit of self."""
     return self.__mul__(n)
 
+  def __iadd__(self, other: Iterable[Any]) -> 'List':
+    """In-place concatenation: same as `extend`."""
+    self.extend(other)
+    return self
+
+  def __imul__(self, n: int) -> 'List':
+    """In-place repetition, performed through the symbolic write path."""
+    if base.treats_as_sealed(self):
+      raise base.WritePermissionError('Cannot repeat a sealed List in place.')
+    if not isinstance(n, numbers.Integral):
+      raise TypeError(
+          f'can\'t multiply sequence by non-int of type {type(n).__name__!r}')
+    if n <= 0:
+      self.clear()
+    else:
+      items = list(self.sym_values())
+      for _ in range(n - 1):
+        self.extend(items)
+    return self
+
   def copy(self) -> 'List':
     """Shallow current list."""
     return List(super().copy(), value_spec=self._value_spec)
